@@ -20,7 +20,7 @@ import (
 // (Pithos.Model.Listing) knows how to interpret, and emits the recognised shape as constructors.
 // Anything else fails closed ("unrecognised shape"): the model then has no predicate to select.
 
-func init() { registerExtractor("listingsql", extractListingSQL) }
+func init() { registerExtractor("listingsql", c06ExtractListingSQL) }
 
 const c06ObjectRepo = "internal/storage/database/sqlite/repository/object/sqlite.go"
 const c06PartRepo = "internal/storage/database/sqlite/repository/part/sqlite.go"
@@ -40,8 +40,8 @@ type c06Family struct {
 
 var c06Space = regexp.MustCompile(`\s+`)
 
-// splitTopLevelAnd splits a WHERE clause on AND at parenthesis depth 0 (case-insensitive).
-func splitTopLevelAnd(s string) []string {
+// c06SplitTopLevelAnd splits a WHERE clause on AND at parenthesis depth 0 (case-insensitive).
+func c06SplitTopLevelAnd(s string) []string {
 	var out []string
 	depth, start := 0, 0
 	inStr := false
@@ -104,7 +104,7 @@ func c06StringConsts(x *ExtractCtx, rel string) (map[string]string, map[string]a
 	return vals, nodes, nil
 }
 
-func extractListingSQL(x *ExtractCtx) error {
+func c06ExtractListingSQL(x *ExtractCtx) error {
 	vals, nodes, err := c06StringConsts(x, c06ObjectRepo)
 	if err != nil {
 		return err
@@ -200,7 +200,7 @@ structure Stmt where
 		prefixTag := ""
 		markerSeen := false
 		var others []string
-		for _, c := range splitTopLevelAnd(rest) {
+		for _, c := range c06SplitTopLevelAnd(rest) {
 			switch {
 			case c == "key LIKE $2 || '%'":
 				if prefixTag != "" {
